@@ -26,9 +26,21 @@ WORKERS = 8
 
 INVARIANTS = ['TypeOK', 'InvModeRules', 'InvNoLateReject', 'InvIdempotent', 'InvAliasKeeps',
               'InvLosesNothing', 'InvDictRoundTrip', 'InvSlotsKeep', 'InvSlotsFormat',
-              'InvFuncSame', 'InvSeqSame']
-KINDS = ('td', 'pd', 'slots', 'func', 'fseq')
-DEVS = ['DevWorkerClass', 'DevKwargsNone']
+              'InvFuncSame', 'InvSeqSame', 'InvRemoteSame', 'InvSeqNormal', 'InvSeqRules',
+              'InvSeqAlias']
+KINDS = ('td', 'pd', 'slots', 'func', 'fseq', 'xfunc', 'tdseq')
+DEVS = ['DevWorkerClass', 'DevKwargsNone', 'DevRemembers', 'DevByRefMain']
+MONITOR_CONSTANTS = '\n '.join('%s = FALSE' % d for d in DEVS)
+
+# steps of a sequence on one description object, by the way the object is touched;
+# the quick tier takes one step of each group (seeded), thorough all of them
+SEQ_OPS = {'verify': ['verify'], 'submit': ['submit'],
+           'attr': ['attr_dep', 'attr_new', 'attr_mode'],
+           'item': ['item_dep', 'item_dep2', 'item_loose'],
+           'mode': ['item_mode', 'item_noexe', 'item_cmd'],
+           'update': ['update_dep', 'update_func'], 'inplace': ['inplace']}
+SEQ_BASES = [{'executable': 'x'},
+             {'mode': 'task.shell', 'command': 'x', 'cpu_processes': 2}]
 
 ALIAS = [('cpu_processes', 'ranks'), ('cpu_threads', 'cores_per_rank'),
          ('cpu_thread_type', 'threading_type'), ('gpu_processes', 'gpus_per_rank'),
@@ -119,7 +131,10 @@ def td_families(tier, rng):
         pats = [rng.choice(pats)]
     for pat in pats:
         bg = {n: other(n) for i, (d, n) in enumerate(ALIAS) if pat(i)}
-        fams.append(fam(ints=DEP_I + ['extra'], ivals=(0, 1), strs=DEP_S, svals=('', 'a'), bg=bg))
+        if quick:
+            bg['extra'] = 1
+        fams.append(fam(ints=DEP_I + ([] if quick else ['extra']), ivals=(0, 1), strs=DEP_S,
+                        svals=('', 'a'), bg=bg))
     # every (deprecated, replacement) pair in full, the other pairs unset / set
     for d, n in ALIAS:
         for setall in (False, True):
@@ -177,6 +192,14 @@ def slot_families(tier, rng):
     return [f]
 
 
+def seq_ops(tier, rng):
+    if tier == 'quick':
+        # the deprecated names and the mode switch always, the rest by the seed
+        return (['verify', 'submit', 'update_dep', 'inplace', 'item_mode', rng.choice(SEQ_OPS['attr'])]
+                + [rng.choice(SEQ_OPS['item'])])
+    return [o for g in SEQ_OPS.values() for o in g]
+
+
 def mc_files(tier, rng, kinds=KINDS, devs=(), emit=True,
              tdf=None, slf=None, funcs=None):
     tdf = td_families(tier, rng) if tdf is None else tdf
@@ -185,16 +208,22 @@ def mc_files(tier, rng, kinds=KINDS, devs=(), emit=True,
     mod = ('---- MODULE MC ----\nEXTENDS Descr\n'
            'MCTDFams == {%s}\nMCSlotFams == {%s}\n'
            'MCFuncs == %s\nMCArgs == %s\nMCKws == %s\nMCApis == {"class", "decor"}\n'
-           'MCShort == %s\nMCSeqLens == %s\n====\n'
+           'MCShort == %s\nMCSeqLens == %s\n'
+           'MCXFuncs == %s\nMCXWheres == {"main", "module"}\nMCXArgs == %s\n'
+           'MCSeqBases == %s\nMCSeqOps == %s\nMCOpLens == {2, 3}\n====\n'
            % (',\n  '.join(tla(f) for f in tdf), ',\n  '.join(tla(f) for f in slf),
               tla(set(funcs)), tla(set(R.ARGS)), tla(set(R.KWS)), tla(set(R.SHORT)),
-              tla({2, 3} if tier == 'quick' else {2, 3, 4})))
+              tla({2, 3} if tier == 'quick' else {2, 3, 4}),
+              tla(set(R.XFUNCS)), tla(set(R.XARGS)),
+              tla(S(SEQ_BASES[:1] if tier == 'quick' else SEQ_BASES)),
+              tla(set(seq_ops(tier, rng)))))
     cfg = 'CONSTANTS\n'
     for d in DEVS:
         cfg += ' %s = %s\n' % (d, 'TRUE' if d in devs else 'FALSE')
     cfg += (' Kinds = %s\n TDFams <- MCTDFams\n SlotFams <- MCSlotFams\n Funcs <- MCFuncs\n'
             ' ArgIds <- MCArgs\n KwIds <- MCKws\n Apis <- MCApis\n ShortFuncs <- MCShort\n'
-            ' SeqLens <- MCSeqLens\n Emit = %s\n'
+            ' SeqLens <- MCSeqLens\n XFuncs <- MCXFuncs\n XWheres <- MCXWheres\n XArgIds <- MCXArgs\n'
+            ' SeqBases <- MCSeqBases\n SeqOpIds <- MCSeqOps\n OpLens <- MCOpLens\n Emit = %s\n'
             % (tla(set(kinds)), tla(bool(emit))))
     cfg += 'SPECIFICATION Spec\nCHECK_DEADLOCK FALSE\n'
     for i in INVARIANTS:
@@ -230,7 +259,7 @@ def validate(traces):
 
     def one(chunk):
         return tracecheck.validate('Descr', 'DescrTrace',
-                                   'DevWorkerClass = FALSE\n DevKwargsNone = FALSE', chunk,
+                                   MONITOR_CONSTANTS, chunk,
                                    timeout=900, max_batch=size)
     with ThreadPoolExecutor(max_workers=min(WORKERS, len(chunks))) as ex:
         parts = list(ex.map(one, chunks))
@@ -247,9 +276,22 @@ def validate(traces):
 def classify(kind, inp, clause, infos):
     '''input class of a failing trace (for known-findings matching)'''
     c = clause.split('.', 1)[1]
+    if kind == 'tdseq':
+        # the calls of the sequence which failed: (change before the call, verified before?)
+        ctx  = sorted(tuple(i.split('.')[3:]) for i in infos if i.startswith('I.seq.after.'))
+        again = [how for how, prior in ctx if prior == 'verified' and how != 'none']
+        if again:
+            return ['description verified again after a change through %s'
+                    % {'attr': 'attributes', 'item': 'item assignment', 'update': 'update()',
+                       'inplace': 'in-place mutation of a value'}.get(how, how) for how in again]
+        return ['description object: verify after %s' % ', '.join('%s (%s)' % c for c in ctx)]
     if c == 'AliasKeeps':
         return ['deprecated attribute %s -> %s' % (d, n) for d, n in ALIAS
                 if 'I.alias.' + d in infos]
+    if kind == 'xfunc':
+        return ['function payload decoded in another interpreter: %s from %s'
+                % (inp['f'], 'the application script (__main__)' if inp['w'] == 'main'
+                   else 'an importable module')]
     if kind == 'fseq':
         return ['short-lived callables encoded one after the other (%s)' % inp['api']]
     if kind == 'func':
@@ -290,6 +332,13 @@ def required_classes():
     req |= {'K.slots.%s.%s.new' % (r, f) for r in 'cg' for f in ('int', 'dict', 'ro')}
     req |= {'K.slots.mixed.oldfirst', 'K.slots.mixed.newfirst', 'K.slots.mixed.len.2',
             'K.slots.mixed.len.3', 'K.slots.len.3'}
+    req |= {'K.xfunc.%s.%s' % (f, w) for f in R.XFUNCS for w in ('main', 'module')}
+    req |= {'K.xfunc.at.local', 'K.xfunc.at.remote'} | {'K.xfunc.a.' + a for a in R.XARGS}
+    req |= {'K.tdseq.set.' + h for h in ('attr', 'item', 'update', 'inplace')}
+    req |= {'K.tdseq.via.verify', 'K.tdseq.via.task', 'K.tdseq.reverify.alias',
+            'K.tdseq.reverify.cast'}
+    req |= {'K.tdseq.reverify.%s.%s' % (h, r) for h in ('attr', 'item', 'update')
+            for r in ('accept', 'reject')} | {'K.tdseq.reverify.inplace.accept'}
     req |= {'K.fseq.%s.len.%d' % (a, n) for a in ('class', 'decor') for n in (2, 3)}
     req |= {'K.fseq.f.' + f for f in R.SHORT}
     req |= {'K.func.%s.%s' % (a, f) for a in ('class', 'decor') for f in R.FUNCS}
@@ -328,6 +377,14 @@ def report(chk, items, traces, errs):
     return seen
 
 
+def run_rig(items):
+    '''one trace per input; the payloads for another interpreter go through one
+       application process and one worker process'''
+    xs = [inp for kind, inp in items if kind == 'xfunc']
+    xt = iter(R.run_xfunc_batch(xs))
+    return [next(xt) if kind == 'xfunc' else R.run(kind, inp) for kind, inp in items]
+
+
 def run(chk, tier, seed):
     rng   = random.Random(seed * 7919 + 19)
     quick = tier == 'quick'
@@ -350,18 +407,21 @@ def run(chk, tier, seed):
     # ---- 2. deviation sensitivity of the model's invariants ---------------------
     if not quick:
         for dev, kinds, inv in [('DevWorkerClass', ('td',), 'InvAliasKeeps'),
-                                ('DevKwargsNone', ('func',), 'InvFuncSame')]:
+                                ('DevKwargsNone', ('func',), 'InvFuncSame'),
+                                ('DevRemembers', ('tdseq',), None),
+                                ('DevByRefMain', ('xfunc',), 'InvRemoteSame')]:
             r = tlc.run('Descr', 'MC', 'MC.cfg', workers=WORKERS, timeout=600,
                         extra_files=mc_files('quick', random.Random(1), kinds=kinds,
                                              devs=[dev], emit=False))
             chk.add_tlc(r, 'deviation:' + dev)
-            if r.ok or r.violated != inv:
+            if r.ok or (inv and r.violated != inv) or \
+                    (not inv and r.violated not in ('InvSeqNormal', 'InvSeqRules', 'InvSeqAlias')):
                 raise Machinery('deviation %s not detected by the model (got %s)'
                                 % (dev, r.violated))
-            chk.notes.append('deviation %s breaks %s in the design model' % (dev, inv))
+            chk.notes.append('deviation %s breaks %s in the design model' % (dev, r.violated))
 
     # ---- 3. every TLC state -> calls of the real code ---------------------------
-    traces = [R.run(kind, inp) for kind, inp in items]
+    traces = run_rig(items)
 
     # ---- 4. the monitor recomputes every step -----------------------------------
     errs, st = validate(traces)
@@ -388,12 +448,17 @@ def run(chk, tier, seed):
         'tests truth values and copies',
         'function payloads: the model is a case enumerator with an identity oracle; nothing '
         'about dill / pickle is modelled, the callables are those of the rig catalogue',
+        'payloads for another interpreter: encoded by a python process whose __main__ is the '
+        'rig module, decoded by a fresh interpreter which can import the rig module but has '
+        'another __main__ (the raptor worker situation)',
+        'sequences on one description object: lengths 2-3 plus a final verify / submit, steps '
+        'from a fixed catalogue of changes (DescrOps.SeqOps)',
         'old slot format on input = cores / gpus as integers, dictionaries, RO objects or '
         '(index, occupation) pairs (what convert_slots_to_new accepts); the per-rank core-map '
         'format produced by convert_slots_to_old is checked as output only']
 
 
 def replay(chk, obj):
-    tr = R.run(obj['kind'], obj['inp'])
+    tr = run_rig([(obj['kind'], obj['inp'])])[0]
     errs, st = validate([tr])
     report(chk, [(obj['kind'], obj['inp'])], [tr], errs)
